@@ -72,3 +72,135 @@ Print Assumptions C06_leap_shear.
 Print Assumptions C06_leap_bijective.
 Print Assumptions C06_leap_volume_1d.
 Print Assumptions C06_leap_jacobian_1d.
+
+(* ---- finite-state ergodicity: a kernel with a uniform minorisation P x y >= delta (Doeblin) contracts the l1
+   distance between laws, so the n-step law converges geometrically to the stationary law; the Metropolis
+   kernel on a deterministic involutive proposal (HMC's shape: L leapfrog steps then a momentum flip) is
+   reversible, stochastic and leaves the weights stationary; and the HMC proposal is such an involution.
+   Finite state spaces only: the continuous-state ergodic theorem is NOT proved. ---- *)
+From MiniMcmc Require Import Model.Ergodic Proofs.Ergodic.
+From Coq Require Import List.
+Import ListNotations.
+
+Section C06_doeblin.
+  Context {St : Type}.
+  Variable states : list St.
+  Variable P : St -> St -> R.
+  Hypothesis P_row : forall x, In x states -> sumR (P x) states = 1.
+
+  (* a stochastic kernel preserves total mass *)
+  Theorem C06_push_mass : forall mu : St -> R, sumR (push states P mu) states = sumR mu states.
+  Proof. exact (push_mass states P P_row). Qed.
+
+  Variable delta : R.
+  Hypothesis P_minor : forall x y, In x states -> In y states -> delta <= P x y.
+
+  (* one step contracts the l1 distance of two mass functions of equal mass by 1 - N*delta *)
+  Theorem C06_doeblin_contraction : forall mu nu : St -> R, sumR mu states = sumR nu states ->
+    l1 states (push states P mu) (push states P nu) <= (1 - INR (length states) * delta) * l1 states mu nu.
+  Proof. exact (doeblin_contraction states P P_row delta P_minor). Qed.
+
+  Variable pi : St -> R.
+  Hypothesis pi_stat : forall y, In y states -> push states P pi y = pi y.
+
+  (* geometric convergence of the n-step law to the stationary law *)
+  Theorem C06_doeblin_geometric : forall mu : St -> R, sumR mu states = sumR pi states ->
+    forall n, l1 states (pushn states P n mu) pi <= (1 - INR (length states) * delta) ^ n * l1 states mu pi.
+  Proof. exact (doeblin_geometric states P P_row delta P_minor pi pi_stat). Qed.
+
+  (* with delta > 0 the distance falls below every eps *)
+  Theorem C06_doeblin_limit : forall mu : St -> R, 0 < delta -> states <> [] ->
+    sumR mu states = sumR pi states ->
+    forall eps, 0 < eps -> exists n0, forall n, (n0 <= n)%nat -> l1 states (pushn states P n mu) pi < eps.
+  Proof. exact (doeblin_limit states P P_row delta P_minor pi pi_stat). Qed.
+End C06_doeblin.
+
+Section C06_involutive.
+  Context {St : Type}.
+  Variable eqb : St -> St -> bool.
+  Hypothesis eqb_spec : forall x y, eqb x y = true <-> x = y.
+  Variable w : St -> R.
+  Variable F : St -> St.
+  Hypothesis w_pos : forall x, 0 < w x.
+  Hypothesis F_inv : forall x, F (F x) = x.
+
+  (* Metropolis on an involution is reversible with respect to the weights *)
+  Theorem C06_involutive_detailed_balance : forall x y,
+    w x * Kinv eqb w F x y = w y * Kinv eqb w F y x.
+  Proof. exact (involutive_detailed_balance eqb eqb_spec w F w_pos F_inv). Qed.
+
+  Variable states : list St.
+  Hypothesis states_nodup : NoDup states.
+  Hypothesis F_closed : forall x, In x states -> In (F x) states.
+
+  Theorem C06_involutive_row_sum : forall x, In x states -> sumR (Kinv eqb w F x) states = 1.
+  Proof. exact (involutive_row_sum eqb eqb_spec w F states states_nodup F_closed). Qed.
+
+  Theorem C06_involutive_stationary : forall y, In y states ->
+    sumR (fun x => w x * Kinv eqb w F x y) states = w y.
+  Proof. exact (involutive_stationary eqb eqb_spec w F w_pos F_inv states states_nodup F_closed). Qed.
+End C06_involutive.
+
+Section C06_hmc_involution.
+  Variable grad : list R -> list R.
+  Variable eps : R.
+  Variable L : nat.
+  Hypothesis grad_length : forall x, length (grad x) = length x.
+
+  (* the HMC proposal z |-> flip (leapfrog^L z) is an involution on phase points with matching lengths,
+     and maps such points to such points *)
+  Theorem C06_hmc_proposal_involution : forall x p : list R, length p = length x ->
+    flip numR (leapfrog numR grad eps L (flip numR (leapfrog numR grad eps L (x, p)))) = (x, p).
+  Proof. exact (hmc_proposal_involution grad eps L grad_length). Qed.
+
+  Theorem C06_hmc_proposal_length : forall x p : list R, length p = length x ->
+    length (snd (flip numR (leapfrog numR grad eps L (x, p))))
+    = length (fst (flip numR (leapfrog numR grad eps L (x, p)))) /\
+    length (fst (flip numR (leapfrog numR grad eps L (x, p)))) = length x.
+  Proof. exact (hmc_proposal_length grad eps L grad_length). Qed.
+End C06_hmc_involution.
+
+(* non-vacuity: the two-state chain ex2_P (entries 3/4 1/4 / 1/2 1/2, all >= 1/4) with stationary law
+   ex2_pi = (2/3, 1/3) meets every hypothesis above; any initial law halves its l1 distance each step *)
+Theorem C06_doeblin_example : forall mu : bool -> R, mu true + mu false = 1 ->
+  forall n, l1 [true; false] (pushn [true; false] ex2_P n mu) ex2_pi
+            <= (1 / 2) ^ n * l1 [true; false] mu ex2_pi.
+Proof. exact doeblin_example. Qed.
+
+Print Assumptions C06_push_mass.
+Print Assumptions C06_doeblin_contraction.
+Print Assumptions C06_doeblin_geometric.
+Print Assumptions C06_doeblin_limit.
+Print Assumptions C06_involutive_detailed_balance.
+Print Assumptions C06_involutive_row_sum.
+Print Assumptions C06_involutive_stationary.
+Print Assumptions C06_hmc_proposal_involution.
+Print Assumptions C06_hmc_proposal_length.
+Print Assumptions C06_doeblin_example.
+
+(* ---- the two together for the Metropolis-Hastings kernel of C01: on a finite state space where every transition
+   probability is at least delta, the law of the chain after n steps is within (1 - N delta)^n of the target in l1,
+   whatever the initial law (rows sum to one: C01_kernel_stochastic; pi stationary: C01_stationary) ---- *)
+Section C06_mh_converges.
+  Context {St : Type}.
+  Variable eqb : St -> St -> bool.
+  Hypothesis eqb_spec : forall x y, eqb x y = true <-> x = y.
+  Variable states : list St.
+  Variable pi : St -> R.
+  Variable q : St -> St -> R.
+  Hypothesis pi_pos : forall x, 0 < pi x.
+  Hypothesis q_nonneg : forall x y, 0 <= q x y.
+  Hypothesis states_nodup : NoDup states.
+  Variable delta : R.
+  Hypothesis K_minor : forall x y, In x states -> In y states -> delta <= K eqb states pi q x y.
+
+  Theorem C06_mh_converges : forall mu : St -> R, sumR mu states = sumR pi states ->
+    forall n, l1 states (pushn states (K eqb states pi q) n mu) pi
+              <= (1 - INR (length states) * delta) ^ n * l1 states mu pi.
+  Proof.
+    exact (doeblin_geometric states (K eqb states pi q)
+             (fun x Hx => K_row_sum eqb eqb_spec states pi q x states_nodup Hx) delta K_minor pi
+             (fun y Hy => stationary eqb eqb_spec states pi q pi_pos q_nonneg y states_nodup Hy)).
+  Qed.
+End C06_mh_converges.
+Print Assumptions C06_mh_converges.
